@@ -2,7 +2,7 @@
 (***************************************************************************)
 (* C01 / C04, index level.  MC + GEN instance over Convolution.tla.        *)
 (*                                                                         *)
-(*    init --PickCfg--> c (admissible cell of the option lattice)          *)
+(*    init --PickShard--> (N, M) --PickCfg--> c (admissible lattice cell)  *)
 (*         --PickG--> (c, g)                                               *)
 (*                                                                         *)
 (* Laws:  ShapeOK and Translates in every cell; Covariant(g,c) for every   *)
@@ -38,13 +38,17 @@ Gens == IF D = 2 THEN {[p |-> <<2, 1>>, s |-> <<-1, 1>>], [p |-> <<1, 2>>, s |->
 Elems == IF GroupMode = "all" THEN B(D) ELSE IF GroupMode = "gens" THEN Gens ELSE {}
 
 Init == st = [kind |-> "init"]
-PickCfg == /\ st.kind = "init"
-           /\ \E N \in Ns, M \in Ms, mode \in Modes, stride \in StrideSet, rdil \in RdilSet, ldil \in LdilSet :
+(* two-level fan-out: TLC expands the successors of ONE state on one worker, so the lattice is first split into
+   shards (image extent x filter extent) that the workers then expand in parallel *)
+PickShard == /\ st.kind = "init"
+             /\ \E N \in Ns, M \in Ms : st' = [kind |-> "shard", N |-> N, M |-> M]
+PickCfg == /\ st.kind = "shard"
+           /\ \E mode \in Modes, stride \in StrideSet, rdil \in RdilSet, ldil \in LdilSet :
                 \E torus \in FlagsFor(mode), pad \in PadsFor(mode) :
-                   LET c == MkCfg(N, M, torus, mode, pad, stride, rdil, ldil) IN
+                   LET c == MkCfg(st.N, st.M, torus, mode, pad, stride, rdil, ldil) IN
                    Admissible(c) /\ st' = [kind |-> "cfg", c |-> c]
 PickG   == st.kind = "cfg" /\ UnitStride(st.c) /\ \E g \in Elems : st' = [kind |-> "cg", c |-> st.c, g |-> g]
-Next == PickCfg \/ PickG
+Next == PickShard \/ PickCfg \/ PickG
 
 Laws == /\ (st.kind = "init" => (GroupMode = "gens" => Closure(Gens) = B(D)))
         /\ (st.kind = "cfg"  => ShapeOK(st.c) /\ Translates(st.c))
